@@ -141,8 +141,9 @@ def _dense(m):
     return np.asarray(m.toarray() if hasattr(m, "toarray") else m)
 
 
-def _pin_flags(L, fixed, others=None):
-    """(class of the rows of `fixed`, some row of `others` (default: every other row) is an identity row)"""
+def _pin_flags(L, fixed, others=None, expected=None):
+    """(class of the rows of `fixed`, some row of `others` (default: every other row) is an identity row,
+    the identity rows are EXACTLY the rows of `expected` (default: `fixed`))"""
     n = L.shape[0]
     eye = np.eye(n, dtype=L.dtype)
     is_id = np.all(L == eye, axis=1)
@@ -161,7 +162,9 @@ def _pin_flags(L, fixed, others=None):
         cls = "plain"
     else:
         cls = "mixed"
-    return cls, bool(is_id[other].any())
+    exp = np.zeros(n, dtype=bool)
+    exp[np.asarray(fixed if expected is None else expected, dtype=int)] = True
+    return cls, bool(is_id[other].any()), bool(np.array_equal(is_id, exp))
 
 
 def _quantise(M, scale):
@@ -186,8 +189,8 @@ def _fresh(tdgl, ops, A, setter=None):
 def _ops_event(tdgl, ops, A, qid, fixed, first, form="fresh", scale_lap=None, scale_grad=None):
     fresh = _fresh(tdgl, ops, A)
     L, G = _dense(ops.psi_laplacian), _dense(ops.psi_gradient)
-    cls, other = _pin_flags(L, fixed)
-    ev = {"ev": "build" if first else "refresh", "q": qid, "form": form,
+    cls, other, exact = _pin_flags(L, fixed, expected=(fixed if ops.fix_psi else []))
+    ev = {"ev": "build" if first else "refresh", "q": qid, "form": form, "rowsexact": exact,
           "lap_eq": bool(np.array_equal(L, _dense(fresh.psi_laplacian))),
           "grad_eq": bool(np.array_equal(G, _dense(fresh.psi_gradient))),
           "pinrows": cls, "other": other, "lap": [], "grad": []}
@@ -435,6 +438,10 @@ def natural_run(tdgl, a, tmp):
     # the terminal site set is decided geometrically and independently of Device.terminal_info() / Device.points
     tsites, nonterm = terminal_site_oracle(dev)
     has_terminals = len(dev.terminals) > 0
+    # ... and, alongside, the documented API: the sites Device.terminal_info() names (C06 anchors: observe_at) must be
+    # exactly the pinned ones - the two definitions are checked independently of each other
+    _ti = dev.terminal_info()
+    api_sites = (np.concatenate([t.site_indices for t in _ti]).astype(np.int64) if _ti else np.array([], dtype=np.int64))
     nsites = len(dev.mesh.sites)
     kw = {}
     if has_terminals and a.get("current"):
@@ -484,8 +491,8 @@ def natural_run(tdgl, a, tmp):
         L = _dense(ops.psi_laplacian)
         eq = bool(np.array_equal(L, _dense(fresh.psi_laplacian))
                   and np.array_equal(_dense(ops.psi_gradient), _dense(fresh.psi_gradient)))
-        cls, other = _pin_flags(L, tsites, nonterm)
-        return eq, cls, other
+        cls, other, exact = _pin_flags(L, tsites, nonterm, expected=(api_sites if v is not None else []))
+        return eq, cls, other, exact
 
     def latest_total():
         if opts.include_screening:
@@ -497,9 +504,9 @@ def natural_run(tdgl, a, tmp):
         st["applied"] = np.array(self.current_A_applied, copy=True)
         st["seen"][st["applied"].tobytes()] = 0
         ops = self.operators
-        eq, cls, other = ops_flags(ops, st["applied"])
+        eq, cls, other, exact = ops_flags(ops, st["applied"])
         ev.append({"ev": "ctor", "fresh": bool(eq and np.array_equal(np.asarray(ops.link_exponents), st["applied"])),
-                   "pinrows": cls, "other": other,
+                   "pinrows": cls, "other": other, "rowsexact": exact,
                    "term": seed_cls if seed_cls is not None else _term_class(self.psi_init, tsites, v)})
         st["psi0"] = psi_start if psi_start is not None else np.array(self.psi_init, copy=True)
         st["psi_prev"] = st["psi0"]
@@ -524,16 +531,16 @@ def natural_run(tdgl, a, tmp):
         if not st["in_update"]:
             return
         arg = np.asarray(link_exponents)
-        eq, cls, other = ops_flags(self, arg)
+        eq, cls, other, exact = ops_flags(self, arg)
         ind = st["induced"] if st["induced"] is not None else 0.0
         ev.append({"ev": "links", "arg_applied": bool(np.array_equal(arg, st["applied"])),
                    "arg_total": bool(np.array_equal(arg, st["applied"] + ind)),
-                   "eq": eq, "pinrows": cls, "other": other})
+                   "eq": eq, "pinrows": cls, "other": other, "rowsexact": exact})
 
     def w_euler(self, step, psi, abs_sq_psi, mu, epsilon, dt_):
         ops = self.operators
         total = latest_total()
-        eq, cls, other = ops_flags(ops, total)
+        eq, cls, other, exact = ops_flags(ops, total)
         link_eq = bool(np.array_equal(np.asarray(ops.link_exponents), total))
         if not link_eq:
             den = float(np.max(np.abs(total))) or 1.0
@@ -541,7 +548,7 @@ def natural_run(tdgl, a, tmp):
             st["max_stale"] = max(st["max_stale"], stale)
             if st["first_stale"] is None:
                 st["first_stale"] = st["step"]
-        st["pending"] = {"fresh": bool(eq and link_eq), "pinrows": cls, "other": other}
+        st["pending"] = {"fresh": bool(eq and link_eq), "pinrows": cls, "other": other, "rowsexact": exact}
         before = st["refusals"]
         res = orig["euler"](self, step, psi, abs_sq_psi, mu, epsilon, dt_)
         # retried: some evaluation of |psi|^2 was refused (returned None) before the step was accepted
@@ -601,7 +608,7 @@ def natural_run(tdgl, a, tmp):
                 st["max_dev_after_retried_update"] = max(st["max_dev_after_retried_update"], dev_now)
         st["retried_steps"] += bool(st.get("step_retried"))
         st["step_retried"] = False
-        ev.append({"ev": "finish", "term": _term_class(psi, tsites, v),
+        ev.append({"ev": "finish", "term": _term_class(psi, tsites, v), "term_api": _term_class(psi, api_sites, v),
                    "ops_applied": bool(np.array_equal(np.asarray(self.operators.link_exponents), st["applied"]))})
         if len(nonterm) and not np.array_equal(psi[nonterm], st["psi_prev"][nonterm]):
             st["nonterm_evolved"] = True
